@@ -53,6 +53,10 @@ def pool_inv(pool='self._pool', reg=True):
     return inv
 
 
+# the result handler, the supervisor and the workers' bookkeeping hold references to these containers: the pool
+# may change their contents, never replace them
+SHARED = ('self._on_ready_counters == old(self._on_ready_counters) and self._poolctrl == old(self._poolctrl) and '
+          'self._pool == old(self._pool) and self._cache == old(self._cache)')
 ONLY_LIVE = Forall(J, 'implies(0 <= j and j < len(self._pool), %s)' % ALIVE.format(w='at(self._pool, j)'))
 
 
@@ -223,7 +227,8 @@ def build(w):
     join.requires = dict(join.requires, distinct_slot_indices=inv['distinct_slot_indices'])
     join.loops[1]['inv'] = dict(join.loops[1]['inv'], distinct_slot_indices=inv['distinct_slot_indices'])
     join.loops[2]['inv'] = dict(join.loops[2]['inv'], clock_monotone='g.now >= old(g.now)')
-    join.ensures = dict(join.ensures, clock_monotone='g.now >= old(g.now) and g.now > 0', never_grows='len(self._pool) <= old(len(self._pool)) and len(self._pool) >= 0', **inv)
+    join.uses = dict(join.uses, registries_stay_the_shared_objects=[])
+    join.ensures = dict(join.ensures, registries_stay_the_shared_objects=SHARED, clock_monotone='g.now >= old(g.now) and g.now > 0', never_grows='len(self._pool) <= old(len(self._pool)) and len(self._pool) >= 0', **inv)
 
     # ---- one supervision tick -----------------------------------------------------------------------
     maintain = Contract(
